@@ -160,12 +160,15 @@ func (w *World) ApplyTx(raw []byte, res TxResult) TxOutcome {
 	w.feeSum.Add(w.feeSum, fee)
 	snd.Bal = subSat(snd.Bal, fee)
 	snd.Nonce++
+	w.cause(tx.From, "fee")
 
 	switch tx.Type {
 	case ctypes.TRX_TRANSFER:
 		snd.Bal = subSat(snd.Bal, tx.Amount)
 		rc := w.acct(tx.To)
 		rc.Bal.Add(rc.Bal, tx.Amount)
+		w.cause(tx.From, "transfer")
+		w.cause(tx.To, "transfer")
 		w.Feat["ok_transfer"]++
 		if contractPath {
 			w.Feat["ok_transfer_to_contract"]++
@@ -210,6 +213,7 @@ func (w *World) applyStaking(tx *ctypes.Trx, hash []byte, res TxResult) {
 	}
 	power := int64(q.Uint64())
 	snd.Bal = subSat(snd.Bal, tx.Amount)
+	w.cause(tx.From, "stake")
 	d, ok := w.Delegs[ak(tx.To)]
 	self := bytes.Equal(tx.From, tx.To)
 	if !ok {
@@ -342,6 +346,7 @@ func (w *World) applyWithdraw(tx *ctypes.Trx) {
 	}
 	a := w.acct(tx.From)
 	a.Bal.Add(a.Bal, pl.ReqAmt)
+	w.cause(tx.From, "withdraw")
 	w.Withdrawn.Add(w.Withdrawn, pl.ReqAmt)
 	w.Feat["ok_withdraw"]++
 	if w.withdrawsThisBlock == nil {
@@ -427,6 +432,8 @@ func (w *World) applyVoting(tx *ctypes.Trx) {
 func (w *World) applyContract(tx *ctypes.Trx, hash []byte, res TxResult) {
 	snd := w.acct(tx.From)
 	snd.Bal = subSat(snd.Bal, tx.Amount)
+	w.cause(tx.From, "contract")
+	w.cause(tx.To, "contract")
 	if isZero20(tx.To) {
 		caddr := ethcrypto.CreateAddress(toArr20(tx.From), tx.Nonce)
 		c := w.acct(caddr[:])
